@@ -182,7 +182,7 @@ def search(ctx):
             def rad(sys_, v):
                 return math.sqrt(v[0] ** 2 + v[1] ** 2 + v[2] ** 2) if sys_ == "cartesian" else \
                     (v[0] if sys_ == "spherical" else math.sqrt(v[0] ** 2 + v[2] ** 2))
-            if abs(rad(dst, q) - rad(src, p)) > 1e-9 * scale:
+            if not (abs(rad(dst, q) - rad(src, p)) <= 1e-9 * scale):
                 ctx.violation("C19:radius:%s-%s" % (src, dst), "distance from origin not preserved",
                               dict(kind="radius", src=src, dst=dst, p=p, got=list(q)))
             # ranges
@@ -198,7 +198,7 @@ def search(ctx):
             a = _tf("cylindrical", "spherical", _tf("cartesian", "cylindrical", p))
             b = _tf("cartesian", "spherical", p)
             ctx.tried("compose", tuple(np.round(p, 6)))
-            if np.abs(a - b).max() > 1e-9 * scale:
+            if not (np.abs(a - b).max() <= 1e-9 * scale):
                 ctx.violation("C19:compose", "cart->cyl->sph != cart->sph",
                               dict(kind="compose", p=p, via=list(a), direct=list(b)))
         # --- rotation matrix
@@ -212,18 +212,18 @@ def search(ctx):
         if np.abs(R @ R.T - np.eye(3)).max() > 1e-12 or abs(np.linalg.det(R) - 1) > 1e-12:
             ctx.violation("C19:orthogonal", "rotation matrix not orthogonal with det +1",
                           dict(kind="rotation", angles=ang, R=R.tolist()))
-        if np.abs(R - ref).max() > 1e-12:
+        if not (np.abs(R - ref).max() <= 1e-12):
             ctx.violation("C19:zyz", "rotation matrix is not Rz(gamma) Ry(beta) Rz(alpha)",
                           dict(kind="rotation", angles=ang, R=R.tolist()))
         Rd = hm.rotation_matrix(*np.degrees(ang), radians=False)
-        if np.abs(Rd - R).max() > 1e-11:
+        if not (np.abs(Rd - R).max() <= 1e-11):
             ctx.violation("C19:degrees", "degrees form differs from radians form",
                           dict(kind="rotation", angles=ang, R=Rd.tolist()))
         pts = rng.normal(size=(4, 3)) * 3
         rp = hm.rotate_points(pts, *ang)
         d0 = np.linalg.norm(pts[:, None] - pts[None], axis=-1)
         d1 = np.linalg.norm(rp[:, None] - rp[None], axis=-1)
-        if np.abs(d0 - d1).max() > 1e-11:
+        if not (np.abs(d0 - d1).max() <= 1e-11):
             ctx.violation("C19:isometry", "rotate_points changes mutual distances",
                           dict(kind="isometry", angles=ang, points=pts.tolist()))
         # --- composites
@@ -246,7 +246,7 @@ def search(ctx):
         try:
             tr = sc.translated(v)
             ct = np.array([s.center for s in tr.scatterers])
-            if np.abs(ct - (cs + v)).max() > 1e-12 * (1 + np.abs(cs).max() + np.abs(v).max()):
+            if not (np.abs(ct - (cs + v)).max() <= 1e-12 * (1 + np.abs(cs).max() + np.abs(v).max())):
                 ctx.violation("C19:translated", "translated composite: members not shifted by the vector",
                               dict(kind="composite", op="translated", centers=cs.tolist(), v=v.tolist(), members=kindc))
             if np.abs(np.array([s.center for s in sc.scatterers]) - cs).max() != 0:
